@@ -1066,14 +1066,19 @@ func (b *broker) subEventHistory(msg *wamp.Invocation) wamp.Message {
 		}
 	}
 
-	limit, ok = msg.ArgumentsKw["limit"].(int)
-	if ok && limit < 1 {
-		return &wamp.Error{
-			Type:    msg.MessageType(),
-			Request: msg.Request,
-			Details: wamp.Dict{},
-			Error:   wamp.ErrInvalidArgument,
+	// Numbers arrive as int, int64, uint64 or float64 depending on the
+	// transport and serializer of the caller.
+	if limitOp, ok := msg.ArgumentsKw["limit"]; ok {
+		limit64, ok := wamp.AsInt64(limitOp)
+		if !ok || limit64 < 1 {
+			return &wamp.Error{
+				Type:    msg.MessageType(),
+				Request: msg.Request,
+				Details: wamp.Dict{},
+				Error:   wamp.ErrInvalidArgument,
+			}
 		}
+		limit = int(limit64)
 	}
 
 	reverseOp, ok := msg.ArgumentsKw["reverse"]
@@ -1148,8 +1153,8 @@ func (b *broker) subEventHistory(msg *wamp.Invocation) wamp.Message {
 
 	fromPubOp, ok := msg.ArgumentsKw["from_publication"]
 	if ok {
-		fromPub, ok = fromPubOp.(wamp.ID)
-		if !ok || fromPub < 1 {
+		fromPub, ok = wamp.AsID(fromPubOp)
+		if !ok {
 			return &wamp.Error{
 				Type:    msg.MessageType(),
 				Request: msg.Request,
@@ -1162,8 +1167,8 @@ func (b *broker) subEventHistory(msg *wamp.Invocation) wamp.Message {
 
 	afterPubOp, ok := msg.ArgumentsKw["after_publication"]
 	if ok {
-		afterPub, ok = afterPubOp.(wamp.ID)
-		if !ok || afterPub < 1 {
+		afterPub, ok = wamp.AsID(afterPubOp)
+		if !ok {
 			return &wamp.Error{
 				Type:    msg.MessageType(),
 				Request: msg.Request,
@@ -1175,8 +1180,8 @@ func (b *broker) subEventHistory(msg *wamp.Invocation) wamp.Message {
 
 	beforePubOp, ok := msg.ArgumentsKw["before_publication"]
 	if ok {
-		beforePub, ok = beforePubOp.(wamp.ID)
-		if !ok || beforePub < 1 {
+		beforePub, ok = wamp.AsID(beforePubOp)
+		if !ok {
 			return &wamp.Error{
 				Type:    msg.MessageType(),
 				Request: msg.Request,
@@ -1188,8 +1193,8 @@ func (b *broker) subEventHistory(msg *wamp.Invocation) wamp.Message {
 
 	untilPubOp, ok := msg.ArgumentsKw["until_publication"]
 	if ok {
-		untilPub, ok = untilPubOp.(wamp.ID)
-		if !ok || untilPub < 1 {
+		untilPub, ok = wamp.AsID(untilPubOp)
+		if !ok {
 			return &wamp.Error{
 				Type:    msg.MessageType(),
 				Request: msg.Request,
@@ -1263,15 +1268,17 @@ func (b *broker) subEventHistory(msg *wamp.Invocation) wamp.Message {
 			}
 		}
 
+		// The limit selects the most recent of the filtered events; the
+		// requested order only decides how they are returned.
+		if limit > 0 {
+			start := max(len(filteredEvents)-limit, 0)
+			filteredEvents = filteredEvents[start:]
+		}
+
 		if reverse {
 			for i, j := 0, len(filteredEvents)-1; i < j; i, j = i+1, j-1 {
 				filteredEvents[i], filteredEvents[j] = filteredEvents[j], filteredEvents[i]
 			}
-		}
-
-		if limit > 0 {
-			start := max(len(filteredEvents)-limit, 0)
-			filteredEvents = filteredEvents[start:]
 		}
 
 		events, _ = wamp.AsList(filteredEvents)
